@@ -393,23 +393,446 @@ theorem sentOA_ok (b : Sampler) (last : Int) (h : SInv b last) (t pn bytes infl 
   unfold sentOA
   obtain ⟨a, ha, _, wa⟩ := pushBack_spec b.a0.clear (clear_wf b.a0) b.recent1
   rw [ha, Res.bind_ok]
-  exact sentFin_ok _ last (h.frame rfl wa ht) t pn bytes infl hpn ht
+  refine sentFin_ok _ last ?_ t pn bytes infl hpn ht
+  exact h.frame rfl wa ht
 
 theorem onPacketSent_ok (b : Sampler) (last : Int) (h : SInv b last) (t pn bytes infl : Int) (r : Bool)
     (hpn : -1 ≤ pn) (ht : inI64 t) : OkP (SentPost last pn) (b.onPacketSent t pn bytes infl r) := by
   rw [onPacketSent_eq]
   cases r with
-  | false => exact OkP.ok ⟨last, h.frame rfl h.2.1 h.2.2.1, Or.inl rfl⟩
+  | false =>
+    refine OkP.ok ⟨last, ?_, Or.inl rfl⟩
+    exact h.frame rfl h.2.1 h.2.2.1
   | true =>
     simp only [Bool.not_true, Bool.false_eq_true, ↓reduceIte]
     by_cases hz : infl = 0
     · rw [if_pos hz]
       by_cases hoa : b.overestimateAvoidance = true
       · rw [if_pos hoa]
-        exact sentOA_ok _ last (SInv.recentUpdate (h.frame rfl h.2.1 h.2.2.1) _ _) t pn bytes infl hpn ht
+        refine sentOA_ok _ last (SInv.recentUpdate ?_ _ _) t pn bytes infl hpn ht
+        exact h.frame rfl h.2.1 h.2.2.1
       · rw [if_neg hoa]
-        exact sentFin_ok _ last (h.frame rfl h.2.1 ht) t pn bytes infl hpn ht
+        refine sentFin_ok _ last ?_ t pn bytes infl hpn ht
+        exact h.frame rfl h.2.1 ht
     · rw [if_neg hz]
-      exact sentFin_ok _ last (h.frame rfl h.2.1 h.2.2.1) t pn bytes infl hpn ht
+      refine sentFin_ok _ last ?_ t pn bytes infl hpn ht
+      exact h.frame rfl h.2.1 h.2.2.1
+
+/-! ### congestion events: the map is only read -/
+
+/-- what every step inside `OnCongestionEvent` keeps: the map is untouched (`= m`), the ring is well-formed and
+    `lastAckedPacketSentTime` is an int64 value -/
+structure EInv (m : PNQ ConnState) (b : Sampler) : Prop where
+  hmap : b.map = m
+  wf : b.a0.WF
+  ts : inI64 b.lastAckedPacketSentTime
+
+theorem onPacketLost_ok {m : PNQ ConnState} (hm : Pnq.Inv m) (b : Sampler) (hb : EInv m b) (pn bytes : Int) :
+    OkP (fun x => EInv m x.1) (b.onPacketLost pn bytes) := by
+  obtain ⟨v, hv⟩ := getEntry_noPanic hm pn
+  unfold Sampler.onPacketLost
+  simp only [Res.bind_eq, Res.pure_eq, hb.hmap, hv, Res.bind_ok]
+  cases v <;> exact OkP.ok ⟨rfl, hb.wf, hb.ts⟩
+
+theorem lostLoop_ok {m : PNQ ConnState} (hm : Pnq.Inv m) (l : List (Int × Int)) :
+    ∀ (b : Sampler) (st : SendTimeState), EInv m b → OkP (fun x => EInv m x.1) (lostLoop l b st) := by
+  induction l with
+  | nil => intro b st hb; exact OkP.ok hb
+  | cons p rest ih =>
+    intro b st hb
+    obtain ⟨pn, bytes⟩ := p
+    simp only [lostLoop, Res.bind_eq]
+    refine OkP.bind (onPacketLost_ok hm b hb pn bytes) ?_
+    intro x hx
+    obtain ⟨b', s⟩ := x
+    exact ih b' _ hx
+
+/-- the loss loop returns a valid send state only if it started with one or saw at least one packet -/
+theorem lostLoop_valid (l : List (Int × Int)) (b : Sampler) (st : SendTimeState) (b' : Sampler)
+    (st' : SendTimeState) (h : lostLoop l b st = .ok (b', st')) (hv : st'.isValid = true) :
+    st.isValid = true ∨ l ≠ [] := by
+  cases l with
+  | nil => simp only [lostLoop] at h; cases h; exact Or.inl hv
+  | cons p rest => exact Or.inr (by simp)
+
+/-! #### onPacketAcknowledged, cut at its join points -/
+
+def ackUpd1 (b : Sampler) (ackTime pn : Int) (c : ConnState) : Sampler :=
+  { b with lastAckedPacket := pn,
+           totalBytesAcked := i64 (b.totalBytesAcked + c.size),
+           totalBytesSentAtLastAckedPacket := c.sts.totalBytesSent,
+           lastAckedPacketSentTime := c.sentTime,
+           lastAckedPacketAckTime := ackTime }
+
+def ackUpd2 (ackTime : Int) (b : Sampler) : Sampler :=
+  if b.overestimateAvoidance then recentUpdate b ackTime b.totalBytesAcked else b
+
+def ackUpd3 (pn : Int) (b : Sampler) : Sampler :=
+  if b.isAppLimited ∧ (b.endOfAppLimitedPhase = invalidPn ∨ pn > b.endOfAppLimitedPhase)
+  then { b with isAppLimited := false } else b
+
+/-- the sampler state after the bookkeeping part of `onPacketAcknowledged` -/
+def ackUpd (b : Sampler) (ackTime pn : Int) (c : ConnState) : Sampler :=
+  ackUpd3 pn (ackUpd2 ackTime (ackUpd1 b ackTime pn c))
+
+/-- the ack-rate part -/
+def ackFin (ackTime : Int) (c : ConnState) (sendRate : Nat) (b : Sampler) (a0 : AckPoint) :
+    Res (Sampler × BandwidthSample) :=
+  if i64 (ackTime - a0.ackTime) ≤ 0 then .ok (b, newBandwidthSample)
+  else
+    (bandwidthFromDelta (i64 (b.totalBytesAcked - a0.totalBytesAcked)) (i64 (ackTime - a0.ackTime))).bind
+      fun ackRate =>
+        .ok (b, { bandwidth := min sendRate ackRate, rtt := i64 (ackTime - c.sentTime), sendRate := sendRate,
+                  stateAtSend := toSendTimeState c })
+
+/-- the choice of the A0 point followed by the ack-rate part -/
+def ackRest (ackTime : Int) (c : ConnState) (sendRate : Nat) (b : Sampler) : Res (Sampler × BandwidthSample) :=
+  if b.overestimateAvoidance then
+    (b.chooseA0Point c.sts.totalBytesAcked).bind fun x =>
+      match x.2 with
+      | some p => ackFin ackTime c sendRate x.1 p
+      | none => ackFin ackTime c sendRate x.1
+          { ackTime := c.lastAckedPacketAckTime, totalBytesAcked := c.sts.totalBytesAcked }
+  else ackFin ackTime c sendRate b { ackTime := c.lastAckedPacketAckTime, totalBytesAcked := c.sts.totalBytesAcked }
+
+theorem onPacketAcknowledged_eq (b : Sampler) (t pn : Int) :
+    b.onPacketAcknowledged t pn =
+      (b.map.getEntry pn).bind fun e =>
+        match e with
+        | none => .ok ({ b with lastAckedPacket := pn }, newBandwidthSample)
+        | some c =>
+          if c.lastAckedPacketSentTime = 0 then .ok (ackUpd b t pn c, newBandwidthSample)
+          else if c.sentTime > c.lastAckedPacketSentTime then
+            (bandwidthFromDelta (i64 (c.sts.totalBytesSent - c.totalBytesSentAtLastAckedPacket))
+              (i64 (c.sentTime - c.lastAckedPacketSentTime))).bind fun sr => ackRest t c sr (ackUpd b t pn c)
+          else ackRest t c infBandwidth (ackUpd b t pn c) := by
+  rfl
+
+theorem ackUpd2_frame (t : Int) (b : Sampler) :
+    (ackUpd2 t b).map = b.map ∧ (ackUpd2 t b).a0 = b.a0 ∧
+    (ackUpd2 t b).lastAckedPacketSentTime = b.lastAckedPacketSentTime := by
+  unfold ackUpd2
+  split
+  · obtain ⟨h1, h2, h3, _, _⟩ := recentUpdate_frame b t b.totalBytesAcked
+    exact ⟨h1, h2, h3⟩
+  · exact ⟨rfl, rfl, rfl⟩
+
+theorem ackUpd3_frame (pn : Int) (b : Sampler) :
+    (ackUpd3 pn b).map = b.map ∧ (ackUpd3 pn b).a0 = b.a0 ∧
+    (ackUpd3 pn b).lastAckedPacketSentTime = b.lastAckedPacketSentTime := by
+  unfold ackUpd3
+  split <;> exact ⟨rfl, rfl, rfl⟩
+
+theorem ackUpd_einv {m : PNQ ConnState} (b : Sampler) (hb : EInv m b) (t pn : Int) (c : ConnState)
+    (hc : inI64 c.sentTime) : EInv m (ackUpd b t pn c) := by
+  obtain ⟨a1, a2, a3⟩ := ackUpd2_frame t (ackUpd1 b t pn c)
+  obtain ⟨b1, b2, b3⟩ := ackUpd3_frame pn (ackUpd2 t (ackUpd1 b t pn c))
+  unfold ackUpd
+  refine ⟨?_, ?_, ?_⟩
+  · rw [b1, a1]; exact hb.hmap
+  · rw [b2, a2]; exact hb.wf
+  · rw [b3, a3]; exact hc
+
+theorem ackFin_ok {m : PNQ ConnState} (t : Int) (c : ConnState) (sr : Nat) (b : Sampler) (hb : EInv m b)
+    (a0 : AckPoint) : OkP (fun x => EInv m x.1) (ackFin t c sr b a0) := by
+  unfold ackFin
+  by_cases h : i64 (t - a0.ackTime) ≤ 0
+  · rw [if_pos h]; exact OkP.ok hb
+  · rw [if_neg h]
+    obtain ⟨r, hr, _⟩ := bandwidthFromDelta_ok (i64 (b.totalBytesAcked - a0.totalBytesAcked))
+      (i64 (t - a0.ackTime)) (u64_pos_i64 _ h)
+    rw [hr, Res.bind_ok]
+    exact OkP.ok hb
+
+theorem ackRest_ok {m : PNQ ConnState} (t : Int) (c : ConnState) (sr : Nat) (b : Sampler) (hb : EInv m b) :
+    OkP (fun x => EInv m x.1) (ackRest t c sr b) := by
+  unfold ackRest
+  by_cases hoa : b.overestimateAvoidance = true
+  · rw [if_pos hoa]
+    obtain ⟨a, p, h, wa⟩ := chooseA0Point_ok b hb.wf c.sts.totalBytesAcked
+    rw [h, Res.bind_ok]
+    have hb' : EInv m { b with a0 := a } := ⟨hb.hmap, wa, hb.ts⟩
+    cases p with
+    | none => exact ackFin_ok t c sr _ hb' _
+    | some p => exact ackFin_ok t c sr _ hb' p
+  · rw [if_neg hoa]
+    exact ackFin_ok t c sr b hb _
+
+/-- `onPacketAcknowledged`: no panic (both `BandwidthFromDelta` divisors are non-zero) -/
+theorem onPacketAcknowledged_ok {m : PNQ ConnState} (hm : Pnq.Inv m) (hmo : MapOk m) (b : Sampler)
+    (hb : EInv m b) (t pn : Int) : OkP (fun x => EInv m x.1) (b.onPacketAcknowledged t pn) := by
+  rw [onPacketAcknowledged_eq, hb.hmap]
+  rcases getEntry_content hm pn with h | ⟨e, hmem, hp, h⟩
+  · rw [h, Res.bind_ok]
+    exact OkP.ok ⟨rfl, hb.wf, hb.ts⟩
+  · rw [h, Res.bind_ok]
+    obtain ⟨hc1, hc2⟩ := hmo e hmem hp
+    have hU := ackUpd_einv b hb t pn e.val hc1
+    show OkP _ (if e.val.lastAckedPacketSentTime = 0 then _ else _)
+    by_cases h0 : e.val.lastAckedPacketSentTime = 0
+    · rw [if_pos h0]; exact OkP.ok hU
+    · rw [if_neg h0]
+      by_cases hs : e.val.sentTime > e.val.lastAckedPacketSentTime
+      · rw [if_pos hs]
+        have hne : u64 (i64 (e.val.sentTime - e.val.lastAckedPacketSentTime)) ≠ 0 := by
+          apply u64_i64_ne_zero
+          · omega
+          · simp only [inI64, two63] at hc1 hc2; simp only [two64]; omega
+        obtain ⟨r, hr, _⟩ := bandwidthFromDelta_ok
+          (i64 (e.val.sts.totalBytesSent - e.val.totalBytesSentAtLastAckedPacket)) _ hne
+        rw [hr, Res.bind_ok]
+        exact ackRest_ok t e.val r _ hU
+      · rw [if_neg hs]
+        exact ackRest_ok t e.val infBandwidth _ hU
+
+theorem ackLoop_ok {m : PNQ ConnState} (hm : Pnq.Inv m) (hmo : MapOk m) (t : Int) (l : List (Int × Int)) :
+    ∀ (b : Sampler) (a : AckAcc), EInv m b → OkP (fun x => EInv m x.1) (ackLoop t l b a) := by
+  induction l with
+  | nil => intro b a hb; exact OkP.ok hb
+  | cons p rest ih =>
+    intro b a hb
+    obtain ⟨pn, bytes⟩ := p
+    simp only [ackLoop, Res.bind_eq]
+    refine OkP.bind (onPacketAcknowledged_ok hm hmo b hb t pn) ?_
+    intro x hx
+    obtain ⟨b', s⟩ := x
+    dsimp only
+    split
+    · exact ih b' _ hx
+    · exact ih b' _ hx
+
+/-- the ack loop returns a valid send state only if it started with one or saw at least one packet -/
+theorem ackLoop_valid (t : Int) (l : List (Int × Int)) (b : Sampler) (a : AckAcc) (b' : Sampler) (a' : AckAcc)
+    (h : ackLoop t l b a = .ok (b', a')) (hv : a'.lastAcked.isValid = true) :
+    a.lastAcked.isValid = true ∨ l ≠ [] := by
+  cases l with
+  | nil => simp only [ackLoop] at h; cases h; exact Or.inl hv
+  | cons p rest => exact Or.inr (by simp)
+
+/-! #### onAckEventEnd / OnCongestionEvent -/
+
+theorem onAckEventEnd_eq (b : Sampler) (bw : Nat) (nm : Bool) (rtc : Nat) :
+    b.onAckEventEnd bw nm rtc =
+      if i64 (b.totalBytesAcked - b.totalBytesAckedAfterLastAckEvent) = 0 then .ok (b, 0)
+      else
+        let u := b.tracker.update bw nm rtc b.lastSentPacket b.lastAckedPacket b.lastAckedPacketAckTime
+                  (i64 (b.totalBytesAcked - b.totalBytesAckedAfterLastAckEvent))
+        let b2 : Sampler := { b with totalBytesAckedAfterLastAckEvent := b.totalBytesAcked, tracker := u.1 }
+        if b2.overestimateAvoidance ∧ u.2 = 0 then
+          (b2.a0.pushBack (lessRecent b2)).bind fun a => .ok ({ b2 with a0 := a }, u.2)
+        else .ok (b2, u.2) := by
+  rfl
+
+theorem onAckEventEnd_ok {m : PNQ ConnState} (b : Sampler) (hb : EInv m b) (bw : Nat) (nm : Bool) (rtc : Nat) :
+    OkP (fun x => EInv m x.1) (b.onAckEventEnd bw nm rtc) := by
+  rw [onAckEventEnd_eq]
+  split
+  · exact OkP.ok hb
+  · dsimp only
+    split
+    · obtain ⟨a, ha, _, wa⟩ := pushBack_spec b.a0 hb.wf (lessRecent
+        { b with totalBytesAckedAfterLastAckEvent := b.totalBytesAcked,
+                 tracker := (b.tracker.update bw nm rtc b.lastSentPacket b.lastAckedPacket b.lastAckedPacketAckTime
+                  (i64 (b.totalBytesAcked - b.totalBytesAckedAfterLastAckEvent))).1 })
+      rw [ha, Res.bind_ok]
+      exact OkP.ok ⟨hb.hmap, wa, hb.ts⟩
+    · exact OkP.ok ⟨hb.hmap, hb.wf, hb.ts⟩
+
+/-- the tail of `OnCongestionEvent` once `lastPacketSendState` is known -/
+def evFin (b : Sampler) (acc : AckAcc) (maxBandwidth upperBound rtc : Nat) (lps : SendTimeState) :
+    Res (Sampler × EventSample) :=
+  let es : EventSample := { acc.es with lastPacketSendState := lps }
+  let isNewMax := decide (es.sampleMaxBandwidth > maxBandwidth)
+  let mb := max maxBandwidth es.sampleMaxBandwidth
+  let mb := if b.limitBySendRate then max mb acc.maxSendRate else mb
+  (b.onAckEventEnd (min upperBound mb) isNewMax rtc).bind fun x => .ok (x.1, { es with extraAcked := x.2 })
+
+theorem onCongestionEvent_eq (b : Sampler) (t : Int) (acked lost : List (Int × Int)) (mb ub rtc : Nat) :
+    b.onCongestionEvent t acked lost mb ub rtc =
+      (lostLoop lost b default).bind fun x =>
+        if acked.isEmpty then .ok (x.1, { newEventSample with lastPacketSendState := x.2 })
+        else
+          (ackLoop t acked x.1 { es := newEventSample, lastAcked := default, maxSendRate := 0 }).bind fun y =>
+            if !x.2.isValid then evFin y.1 y.2 mb ub rtc y.2.lastAcked
+            else if !y.2.lastAcked.isValid then evFin y.1 y.2 mb ub rtc x.2
+            else
+              match lost.getLast? with
+              | some ll =>
+                match acked.getLast? with
+                | some la => evFin y.1 y.2 mb ub rtc (if ll.1 > la.1 then x.2 else y.2.lastAcked)
+                | none => .panic
+              | none => .panic := by
+  rfl
+
+theorem evFin_ok {m : PNQ ConnState} (b : Sampler) (hb : EInv m b) (acc : AckAcc) (mb ub rtc : Nat)
+    (lps : SendTimeState) : OkP (fun x => EInv m x.1) (evFin b acc mb ub rtc lps) := by
+  unfold evFin
+  dsimp only
+  refine OkP.bind (onAckEventEnd_ok b hb _ _ rtc) ?_
+  intro x hx
+  exact OkP.ok hx
+
+theorem default_sts_invalid : (default : SendTimeState).isValid = false := rfl
+
+/-- `OnCongestionEvent`: no panic — in particular `lostPackets[len-1]` / `ackedPackets[len-1]` are only evaluated
+    when both loops produced a valid send state, hence on non-empty lists -/
+theorem onCongestionEvent_ok {m : PNQ ConnState} (hm : Pnq.Inv m) (hmo : MapOk m) (b : Sampler) (hb : EInv m b)
+    (t : Int) (acked lost : List (Int × Int)) (mb ub rtc : Nat) :
+    OkP (fun x => EInv m x.1) (b.onCongestionEvent t acked lost mb ub rtc) := by
+  rw [onCongestionEvent_eq]
+  obtain ⟨x, hx, hbx⟩ := lostLoop_ok hm lost b default hb
+  obtain ⟨b1, lastLost⟩ := x
+  rw [hx, Res.bind_ok]
+  dsimp only
+  split
+  · exact OkP.ok hbx
+  · obtain ⟨y, hy, hby⟩ := ackLoop_ok hm hmo t acked b1
+      { es := newEventSample, lastAcked := default, maxSendRate := 0 } hbx
+    obtain ⟨b2, acc⟩ := y
+    rw [hy, Res.bind_ok]
+    dsimp only
+    split
+    · exact evFin_ok b2 hby acc mb ub rtc _
+    · split
+      · exact evFin_ok b2 hby acc mb ub rtc _
+      · rename_i hv1 hv2
+        have hv1' : lastLost.isValid = true := by simpa using hv1
+        have hv2' : acc.lastAcked.isValid = true := by simpa using hv2
+        have hl : lost ≠ [] := by
+          rcases lostLoop_valid lost b default b1 lastLost hx hv1' with h | h
+          · rw [default_sts_invalid] at h; cases h
+          · exact h
+        have ha : acked ≠ [] := by
+          rcases ackLoop_valid t acked b1 _ b2 acc hy hv2' with h | h
+          · rw [show (default : SendTimeState).isValid = false from rfl] at h; cases h
+          · exact h
+        rw [List.getLast?_eq_some_getLast hl, List.getLast?_eq_some_getLast ha]
+        exact evFin_ok b2 hby acc mb ub rtc _
+
+/-! ### the API -/
+
+theorem removeObsolete_bound (b : Sampler) (last : Int) (h : SInv b last) (k : Int) :
+    ∃ b', b.removeObsoletePackets k = .ok b' ∧ SInv b' last ∧ (b'.map.slotsUsed : Int) ≤ max 0 (last - k + 1) := by
+  obtain ⟨hg, hw, hts, hmo⟩ := h
+  obtain ⟨q', h1, h2, h3⟩ := removeUpTo_bound hg k
+  refine ⟨{ b with map := q' }, ?_, ⟨h2, hw, hts, ?_⟩, h3⟩
+  · simp only [Sampler.removeObsoletePackets, h1, Res.bind_eq, Res.bind_ok, Res.pure_eq]
+  · intro e he hp
+    exact hmo e (removeUpTo_content hg.1 k q' h1 e he) hp
+
+/-- one call, with the ghost tracked: it stays, or becomes the packet number just sent -/
+theorem apply_spec_ghost (b : Sampler) (last : Int) (h : SInv b last) (c : Call) (hw : c.wellFormed) :
+    ∃ b' last', b.apply c = .ok b' ∧ SInv b' last' ∧ last' ≤ max last (maxSent [c]) := by
+  cases c with
+  | sent t pn bytes infl r =>
+    obtain ⟨b', hb', last', hs, hl⟩ := onPacketSent_ok b last h t pn bytes infl r hw.1 hw.2
+    refine ⟨b', last', hb', hs, ?_⟩
+    simp only [maxSent]
+    omega
+  | event t a l mb ub rtc =>
+    obtain ⟨x, hx, hbx⟩ := onCongestionEvent_ok h.1.1 h.2.2.2 b ⟨rfl, h.2.1, h.2.2.1⟩ t a l mb ub rtc
+    obtain ⟨b', es⟩ := x
+    refine ⟨b', last, ?_, h.frame hbx.hmap hbx.wf hbx.ts, ?_⟩
+    · simp only [Sampler.apply, hx, Res.bind_eq, Res.bind_ok, Res.pure_eq]
+    · simp only [maxSent]; omega
+  | appLimited =>
+    refine ⟨_, last, rfl, h.frame rfl h.2.1 h.2.2.1, ?_⟩
+    simp only [maxSent]; omega
+  | resetTracker ht t =>
+    refine ⟨_, last, rfl, h.frame rfl h.2.1 h.2.2.1, ?_⟩
+    simp only [maxSent]; omega
+  | removeObsolete lu =>
+    obtain ⟨b', h1, h2, _⟩ := removeObsolete_bound b last h lu
+    refine ⟨b', last, h1, h2, ?_⟩
+    simp only [maxSent]; omega
+
+/-- one call: no panic site is reached (every ring/queue access is guarded, both BandwidthFromDelta divisors are
+    non-zero, the `lostPackets[len-1]`/`ackedPackets[len-1]` indexes are only evaluated on non-empty lists) and the
+    invariant is kept, for SOME new ghost value -/
+theorem apply_spec (b : Sampler) (last : Int) (h : SInv b last) (c : Call) (hw : c.wellFormed) :
+    ∃ b' last', b.apply c = .ok b' ∧ SInv b' last' := by
+  obtain ⟨b', last', h1, h2, _⟩ := apply_spec_ghost b last h c hw
+  exact ⟨b', last', h1, h2⟩
+
+/-- **sampler_no_panic** -/
+theorem sampler_no_panic_run (cs : List Call) : ∀ (b : Sampler) (last : Int), SInv b last →
+    (∀ c ∈ cs, c.wellFormed) → ∃ b' last', b.runCalls cs = .ok b' ∧ SInv b' last' := by
+  induction cs with
+  | nil => intro b last h _; exact ⟨b, last, rfl, h⟩
+  | cons c cs ih =>
+    intro b last h hw
+    obtain ⟨b1, l1, h1, h2⟩ := apply_spec b last h c (hw c (by simp))
+    obtain ⟨b2, l2, h3, h4⟩ := ih b1 l1 h2 (fun x hx => hw x (by simp [hx]))
+    exact ⟨b2, l2, by simp only [Sampler.runCalls, h1, Res.bind_eq, Res.bind_ok, h3], h4⟩
+
+theorem maxSent_ge (cs : List Call) : -1 ≤ maxSent cs := by
+  induction cs with
+  | nil => simp only [maxSent]; omega
+  | cons c cs ih => cases c <;> simp only [maxSent] <;> omega
+
+theorem maxSent_cons (c : Call) (cs : List Call) : maxSent (c :: cs) = max (maxSent [c]) (maxSent cs) := by
+  have := maxSent_ge cs
+  cases c <;> simp only [maxSent] <;> omega
+
+theorem ghost_le_maxSent_gen (cs : List Call) : ∀ (b : Sampler) (last M : Int), SInv b last → last ≤ M →
+    (∀ x ∈ cs, x.wellFormed) →
+    ∃ b' last', b.runCalls cs = .ok b' ∧ SInv b' last' ∧ last' ≤ max M (maxSent cs) := by
+  induction cs with
+  | nil => intro b last M h hM _; exact ⟨b, last, rfl, h, by omega⟩
+  | cons c cs ih =>
+    intro b last M h hM hw
+    obtain ⟨b1, l1, h1, h2, h3⟩ := apply_spec_ghost b last h c (hw c (by simp))
+    obtain ⟨b2, l2, h4, h5, h6⟩ := ih b1 l1 (max M (maxSent [c])) h2 (by omega) (fun x hx => hw x (by simp [hx]))
+    refine ⟨b2, l2, by simp only [Sampler.runCalls, h1, Res.bind_eq, Res.bind_ok, h4], h5, ?_⟩
+    rw [maxSent_cons]
+    omega
+
+/-- the ghost never exceeds the largest packet number announced -/
+theorem ghost_le_maxSent (w m c : Nat) (cs : List Call) (hw : ∀ x ∈ cs, x.wellFormed) :
+    ∃ b' last', (Sampler.new w m c).runCalls cs = .ok b' ∧ SInv b' last' ∧ last' ≤ maxSent cs := by
+  obtain ⟨b', l', h1, h2, h3⟩ := ghost_le_maxSent_gen cs _ (-1) (-1) (new_sinv w m c) (Int.le_refl _) hw
+  have := maxSent_ge cs
+  exact ⟨b', l', h1, h2, by omega⟩
+
+/-! ### the per-packet sample -/
+
+theorem ackFin_sample (t : Int) (c : ConnState) (sr : Nat) (hsr : sr ≤ maxU64) (b : Sampler) (a0 : AckPoint)
+    (b' : Sampler) (s : BandwidthSample) (h : ackFin t c sr b a0 = .ok (b', s)) :
+    s.bandwidth ≤ s.sendRate ∧ s.bandwidth ≤ maxU64 := by
+  unfold ackFin at h
+  split at h
+  · cases h; exact ⟨Nat.zero_le _, Nat.zero_le _⟩
+  · obtain ⟨ar, _, h2⟩ := (bind_eq_ok _ _ _).1 h
+    cases h2
+    exact ⟨Nat.min_le_left _ _, Nat.le_trans (Nat.min_le_left _ _) hsr⟩
+
+theorem ackRest_sample (t : Int) (c : ConnState) (sr : Nat) (hsr : sr ≤ maxU64) (b : Sampler)
+    (b' : Sampler) (s : BandwidthSample) (h : ackRest t c sr b = .ok (b', s)) :
+    s.bandwidth ≤ s.sendRate ∧ s.bandwidth ≤ maxU64 := by
+  unfold ackRest at h
+  split at h
+  · obtain ⟨x, _, h2⟩ := (bind_eq_ok _ _ _).1 h
+    obtain ⟨b1, p⟩ := x
+    cases p with
+    | none => exact ackFin_sample t c sr hsr _ _ b' s h2
+    | some p => exact ackFin_sample t c sr hsr _ _ b' s h2
+  · exact ackFin_sample t c sr hsr _ _ b' s h
+
+/-- per-packet sample: the bandwidth is the minimum of send rate and ack rate, hence bounded by the send rate,
+    and fits uint64 -/
+theorem sample_bandwidth_le_sendRate (b : Sampler) (t pn : Int) (b' : Sampler) (s : BandwidthSample)
+    (h : b.onPacketAcknowledged t pn = .ok (b', s)) : s.bandwidth ≤ s.sendRate ∧ s.bandwidth ≤ maxU64 := by
+  rw [onPacketAcknowledged_eq] at h
+  obtain ⟨e, _, h2⟩ := (bind_eq_ok _ _ _).1 h
+  cases e with
+  | none => cases h2; exact ⟨Nat.zero_le _, Nat.zero_le _⟩
+  | some c =>
+    dsimp only at h2
+    split at h2
+    · cases h2; exact ⟨Nat.zero_le _, Nat.zero_le _⟩
+    · split at h2
+      · obtain ⟨sr, h3, h4⟩ := (bind_eq_ok _ _ _).1 h2
+        exact ackRest_sample t c sr (bandwidthFromDelta_le _ _ _ h3) _ b' s h4
+      · exact ackRest_sample t c infBandwidth (Nat.le_refl _) _ b' s h2
 
 end Hy.Sampler
